@@ -283,6 +283,7 @@ let pr_line (o : out) (w : world) (l : netobs list) =
     (pr_arts d) (if d.junk then 1 else 0) (Stdlib.String.concat ";" (List.map pr_net l))
 
 let sched_ops : (int, op list) Hashtbl.t = Hashtbl.create 4
+let tracing = ref false
 let rec nat_of_int i = if i <= 0 then O else S (nat_of_int (i - 1))
 
 (* ---------- main loop: one file may contain many histories ---------- *)
@@ -306,6 +307,8 @@ let () =
        | ["sig"; k; m; s] -> Hashtbl.replace sig_tbl (str_tok k, str_tok m, str_tok s) ()
        | ["base"; b] -> base_blob := blob_tok b
        | ["num"; n] -> ignore (num_tok n)
+       | ["trace"; "on"] -> tracing := true
+       | ["stall"; _] -> ()
        | t :: "op" :: rest when Stdlib.String.length t = 2 && t.[0] = 't' ->
            let i = Char.code t.[1] - 48 in
            let o = parse_op rest in
@@ -334,11 +337,19 @@ let () =
                   (pr_arts d) (if d.junk then 1 else 0) (Stdlib.String.concat ";" net))
        | "op" :: rest ->
            let o = parse_op rest in
+           let acts = if !tracing then world_actions sha sigok zdec (bytes_of_ostring !base_blob) !w o else [] in
            let ((w', x), l) = step sha sigok zdec (bytes_of_ostring !base_blob) !w o in
            w := w';
            incr idx;
            Hashtbl.replace snaps_pj !idx w'.w_disk.pj;
            Hashtbl.replace snaps_sj !idx w'.w_disk.sj;
+           if !tracing then begin
+             let tok = function AcqCfg -> ["A"] | RelCfg -> ["R"] | Net _ -> ["N"] | TryUpd true -> ["T1"]
+                                | TryUpd false -> ["T0"] | RelUpd -> ["U"] | Spawn -> [] in
+             let a = (match o with OKill | ODamage _ -> "-"
+                                 | _ -> Stdlib.String.concat "," (List.concat_map tok acts)) in
+             print_endline (pr_line x w' l ^ " act=" ^ a)
+           end else
            print_endline (pr_line x w' l)
        | ["applypatch"; o; p] ->
            (match apply_patch (bytes_of_ostring (blob_tok o)) (bytes_of_ostring (blob_tok p)) with
